@@ -4,7 +4,7 @@ Implementation side: 1..3 real `SoftwareSwitch`es (+ `OFConnection` + `IOWorker`
 `of_01.Connection` to the ONE real `l2_learning` component, joined by in-memory byte pipes (structure of
 design_spikes/py/ofnet.py); optional loop-free links between switch ports (a frame a switch emits on a link port arrives at
 the peer port; breadth-first).  Virtual clock.  Model side: `drv_c11` (lean/PoxModel/Model/L2.lean)."""
-import itertools, re
+import itertools, re, copy
 import common, poxenv
 from common import Check
 
@@ -716,6 +716,14 @@ class C11(Check):
         return {"transparent": bool(case["transparent"]), "relearn": self.relearn, "dropinport": self.dropinport, "exactsig": self.exactsig, "t0": T0_MS, "switches": [{"ports": w["ports"], "bufs": w["bufs"]} for w in case["switches"]], "links": case.get("links", []), "ops": ops}
 
     def model_obs(self, case, resp):
+        # buffers: the NUMBER of occupied buffers is compared, not which slots of the switch's private list they sit in (a switch
+        # that hands out its buffer ids in another order still never leaks; the ids themselves are C18's subject)
+        if isinstance(resp, dict) and "steps" in resp:
+            resp = copy.deepcopy(resp)
+            for st in resp["steps"]:
+                for a in (st.get("arr") or []):
+                    if isinstance(a.get("bufs"), list): a["bufs"] = sum(1 for b in a["bufs"] if b)
+                if isinstance(st.get("bufs"), list): st["bufs"] = sum(1 for b in st["bufs"] if b)
         return resp
 
     def impl_view(self, case, obs):
@@ -724,7 +732,7 @@ class C11(Check):
             if st["k"] == "rx":
                 arr = []
                 for a in st["arr"]:
-                    d = {"sw": a["sw"], "port": a["port"], "pin": a["pin"], "stuck": 0, "out": a["out"], "flows": a["flows"], "bufs": a["bufs"]}
+                    d = {"sw": a["sw"], "port": a["port"], "pin": a["pin"], "stuck": 0, "out": a["out"], "flows": a["flows"], "bufs": sum(1 for b in a["bufs"] if b)}
                     if a.get("exc"): d["exc"] = a["exc"]             # an exception escaping the real loop has no model counterpart
                     if a.get("errs"): d["errs"] = a["errs"]
                     arr.append(d)
